@@ -1,8 +1,9 @@
-\* C04 thorough (replay 2): 1 thread, <= 3 spans (verdict free), <= 4 frames, no tasks, nesting <= 3, sync forms, incoming ids, Frame::current; every transition replayed.
+\* C04 thorough (replay 2): 1 thread, <= 3 spans (verdict free), <= 4 frames, no tasks, nesting <= 3, sync forms, incoming trace+span ids, Frame::current; every transition replayed.
 SPECIFICATION SSpec
 CONSTANTS
     NThreads = 1
     StoreOf <- MC_Store1
+    InstKind <- MC_Kind1
     NKeys = 3
     PropChoices <- MC_None
     Kinds <- MC_None
@@ -12,7 +13,7 @@ CONSTANTS
     MaxDepth = 3
     Panics = FALSE
     MaxSpans = 3
-    WithIncoming = TRUE
+    IncomingKinds <- MC_IncBoth
     WithLazy = FALSE
     Emit = TRUE
 VIEW sview
